@@ -127,9 +127,18 @@ class RenderNode(Node):
                 namespace["forloop"] = forloop
                 namespace[key] = None
 
-                with ctx.loop_iterations(_length(val, self.token)):
-                    for itm in forloop:
-                        namespace[key] = itm
+                for itm in forloop:
+                    namespace[key] = itm
+                    # A new scope for every item. Whatever the template assigns
+                    # while rendering one item is gone when it renders the next.
+                    ctx = context.copy(
+                        token=self.token,
+                        namespace=namespace,
+                        disabled_tags=self.disabled,
+                        carry_loop_iterations=True,
+                        template=template,
+                    )
+                    with ctx.loop_iterations(forloop.length):
                         character_count += template.render_with_context(
                             ctx, buffer, partial=True, block_scope=True
                         )
@@ -189,9 +198,18 @@ class RenderNode(Node):
                 namespace["forloop"] = forloop
                 namespace[key] = None
 
-                with ctx.loop_iterations(_length(val, self.token)):
-                    for itm in forloop:
-                        namespace[key] = itm
+                for itm in forloop:
+                    namespace[key] = itm
+                    # A new scope for every item. Whatever the template assigns
+                    # while rendering one item is gone when it renders the next.
+                    ctx = context.copy(
+                        token=self.token,
+                        namespace=namespace,
+                        disabled_tags=self.disabled,
+                        carry_loop_iterations=True,
+                        template=template,
+                    )
+                    with ctx.loop_iterations(forloop.length):
                         character_count += await template.render_with_context_async(
                             ctx, buffer, partial=True, block_scope=True
                         )
